@@ -2,7 +2,7 @@
    file of every read.  Proofs: LayeredFactsA.v.  The regenerated call-site
    inventory shows that the parser is entered only through the gate. *)
 From Coq Require Import String Lia List.
-From Econf Require Import Bytes BytesFacts LayeredSpec LayeredFactsA Generated_facts.
+From Econf Require Import Bytes BytesFacts LayeredSpec LayeredFactsA Generated_facts LayeredScenario ThreadsModel ThreadsGlobal.
 Local Open Scope N_scope.
 
 (* a file that violates a rule in force is refused with the specific code,
@@ -54,6 +54,23 @@ Print Assumptions C16_readConfig.
 Theorem C16_reset : forall n, sec_ok sec_none n = true.
 Proof. intros n. reflexivity. Qed.
 Print Assumptions C16_reset.
+
+(* "in force" is process-wide: a requirement (or the reset, s = sec_none) issued by thread i is what gates the next call
+   of every thread j, on j's own objects, tree and callback *)
+Theorem C16_process_wide : forall g ts i j s c,
+  run_sched g ts [(i, WSec s); (j, c)] =
+  [(i, ORc ECONF_SUCCESS);
+   (j, snd (tstep (mkG s (g_conf_dirs g) (g_errfile g) (g_errline g)) (ts j) c))].
+Proof. exact settings_are_process_wide. Qed.
+Print Assumptions C16_process_wide.
+
+Theorem C16_permissions_process_wide : forall g ts i j fm dm c,
+  run_sched g ts [(i, WPerms fm dm); (j, c)] =
+  [(i, ORc ECONF_SUCCESS);
+   (j, snd (tstep (mkG (mkSec (sec_owner (g_sec g)) (sec_group (g_sec g)) (sec_nolinks (g_sec g)) (Some (fm, dm)))
+                       (g_conf_dirs g) (g_errfile g) (g_errline g)) (ts j) c))].
+Proof. exact perms_are_process_wide. Qed.
+Print Assumptions C16_permissions_process_wide.
 
 (* the source, as it is now: read_file is called only from the gate, the gate
    only from the three readers, fopen for reading only in read_file, lstat only
